@@ -36,32 +36,32 @@ EdgeSet(trees, L, Nodes) ==
             /\ (t[2] = L \/ trees[t[2] + 1][t[3]] # trees[t[1]][t[3]]) } }
 
 (* tskit's required edge order: (time[parent], parent, child, left).            *)
-EdgeLess(time)(a, b) ==
+EdgeLess(time, a, b) ==
     \/ time[a.p] < time[b.p]
     \/ time[a.p] = time[b.p] /\ a.p < b.p
     \/ a.p = b.p /\ a.c < b.c
     \/ a.p = b.p /\ a.c = b.c /\ a.l < b.l
 
-EdgeSeq(trees, L, Nodes, time) == SetToSortSeq(EdgeSet(trees, L, Nodes), EdgeLess(time))
+EdgeSeq(trees, L, Nodes, time) == SetToSortSeq(EdgeSet(trees, L, Nodes), LAMBDA x, y : EdgeLess(time, x, y))
 
 (* tskit's indexes (tsk_table_collection_build_index): insertion order sorts by  *)
 (* (left, time[parent], parent, child) ascending, removal order by               *)
 (* (right, -time[parent], -parent, -child) ascending.  Values are 1-based        *)
 (* positions in the edge sequence.                                               *)
-InsLess(E, time)(i, j) ==
+InsLess(E, time, i, j) ==
     LET a == E[i]  b == E[j] IN
     \/ a.l < b.l
     \/ a.l = b.l /\ time[a.p] < time[b.p]
     \/ a.l = b.l /\ time[a.p] = time[b.p] /\ a.p < b.p
     \/ a.l = b.l /\ a.p = b.p /\ a.c < b.c
-RemLess(E, time)(i, j) ==
+RemLess(E, time, i, j) ==
     LET a == E[i]  b == E[j] IN
     \/ a.r < b.r
     \/ a.r = b.r /\ time[a.p] > time[b.p]
     \/ a.r = b.r /\ time[a.p] = time[b.p] /\ a.p > b.p
     \/ a.r = b.r /\ a.p = b.p /\ a.c > b.c
-InsOrder(E, time) == SetToSortSeq(DOMAIN E, InsLess(E, time))
-RemOrder(E, time) == SetToSortSeq(DOMAIN E, RemLess(E, time))
+InsOrder(E, time) == SetToSortSeq(DOMAIN E, LAMBDA x, y : InsLess(E, time, x, y))
+RemOrder(E, time) == SetToSortSeq(DOMAIN E, LAMBDA x, y : RemLess(E, time, x, y))
 
 (* The tree covering coordinate x (0 <= x < 2L).                                 *)
 TreeAt(trees, x) == trees[(x \div 2) + 1]
